@@ -95,7 +95,9 @@ pub fn case_strategy(filter: impl Strategy<Value = u8>) -> impl Strategy<Value =
                 _ => {}
             }
             let tags: Vec<Vec<Option<String>>> = (0..n)
-                .map(|i| (0..n_tags).map(|j| tags[i][j].map(|t| format!("T{t}"))).collect())
+                // (tag 5 is the empty string: a tag that is present - set through tags_mut - and
+                // empty, which no parser produces)
+                .map(|i| (0..n_tags).map(|j| tags[i][j].map(|t| if t == 5 { String::new() } else { format!("T{t}") })).collect())
                 .collect();
             let sentence = RefSentence {
                 chars,
